@@ -383,6 +383,18 @@ theorem get_evidence_spec (a : DocArgs) (d : Doc) (h : buildSR a = .ok d) :
   · simp only [getEvidence, if_true, List.append_nil]
     exact dedup_of_nodup _ _ (List.nodup_append.mp hn).1 (by simp)
 
+/-- **Previous versions** are all listed as predecessor documents (each as often as given), grouped under their own
+study and series; none are listed when none are given. -/
+theorem predecessors_listed (a : DocArgs) (d : Doc) (h : buildSR a = .ok d) :
+    (a.previous = none → d.predecessors = none) ∧
+    (∀ prev, a.previous = some prev → ∃ g, d.predecessors = some g ∧ (rows g).Perm (prev.map Evd.row) ∧ WellGrouped g) := by
+  obtain ⟨_, _, _, _, _, _, hp, _⟩ := built_fields a d h
+  constructor
+  · intro hn; rw [hp, hn]; rfl
+  · intro prev hs
+    refine ⟨predecessors prev, by rw [hp, hs]; rfl, ?_⟩
+    exact predecessors_spec prev
+
 /-! ## key object selection documents -/
 
 /-- **Key object selection documents**: accepted iff every selected object has supplied evidence and all of
